@@ -14,9 +14,12 @@ package main
 //   ["race", [op, op, ...]]                start the listed reg/trig/stop/cancel ops simultaneously
 //   ["await", r, n]                        wait (one-sided, generous timeout) for n f-enters of r
 //   ["quiesce"]
+//   ["hammer", iters, nreg, seed]        (alone in its case) see runHammer
 
 import (
 	"context"
+	"math/rand"
+	"runtime"
 	"sync"
 	"sync/atomic"
 	"time"
@@ -251,7 +254,89 @@ func opAsync(op []any) bool {
 	return false
 }
 
+func spin(n int) {
+	for i := 0; i < n; i++ {
+		_ = i
+	}
+}
+
+// hammer: many short trials of registrations racing StopAndWait on a fresh group, all participants
+// released together by a spin barrier. The windows inside spawn (between the ctx.Err() check,
+// wg.Add and RUnlock) are a few nanoseconds wide; only brute force reaches them through the public
+// API. Checked directly: no f is running when StopAndWait returns and none starts afterwards.
+func runHammer(c *Case) *Obs {
+	iters, nreg := num(c.Ops[0][1]), num(c.Ops[0][2])
+	seed := int64(num(c.Ops[0][3]))
+	rng := rand.New(rand.NewSource(seed))
+	late, running := 0, 0
+	for it := 0; it < iters; it++ {
+		g := xsync.NewGroup(context.Background())
+		var start, returned, lateF, runF, inF, ready int32
+		var wg sync.WaitGroup
+		f := func(ctx context.Context) {
+			atomic.AddInt32(&inF, 1)
+			if atomic.LoadInt32(&returned) != 0 {
+				atomic.StoreInt32(&lateF, 1)
+			}
+			spin(50)
+			atomic.AddInt32(&inF, -1)
+		}
+		for r := 0; r < nreg; r++ {
+			wg.Add(1)
+			d := rng.Intn(400)
+			useTrigger := rng.Intn(3) == 0
+			go func() {
+				defer wg.Done()
+				atomic.AddInt32(&ready, 1)
+				for atomic.LoadInt32(&start) == 0 {
+				}
+				spin(d)
+				if useTrigger {
+					g.Trigger(f)()
+				} else {
+					g.Do(f)
+				}
+			}()
+		}
+		wg.Add(1)
+		d := rng.Intn(400)
+		go func() {
+			defer wg.Done()
+			atomic.AddInt32(&ready, 1)
+			for atomic.LoadInt32(&start) == 0 {
+			}
+			spin(d)
+			g.StopAndWait()
+			if atomic.LoadInt32(&inF) != 0 {
+				atomic.StoreInt32(&runF, 1)
+			}
+			atomic.StoreInt32(&returned, 1)
+		}()
+		for atomic.LoadInt32(&ready) < int32(nreg+1) {
+			runtime.Gosched()
+		}
+		atomic.StoreInt32(&start, 1)
+		wg.Wait()
+		spin(2000)
+		g.StopAndWait()
+		spin(2000)
+		if atomic.LoadInt32(&lateF) != 0 {
+			late++
+		}
+		if atomic.LoadInt32(&runF) != 0 {
+			running++
+		}
+	}
+	o := &Obs{}
+	o.Obs = append(o.Obs, []any{"hammer", iters, late, running})
+	o.Aux = map[string]any{"quiescent": true, "cleanup_leak": false, "await_timeouts": 0, "skipped_quiesce": 0}
+	return o
+}
+
 func runGroup(c *Case) *Obs {
+	if len(c.Ops) > 0 && c.Ops[0][0].(string) == "hammer" {
+		return runHammer(c)
+	}
 	h := &hlog{}
 	parent, cancel := context.WithCancel(context.Background())
 	sc := &groupScen{h: h, g: xsync.NewGroup(parent), cancel: cancel,
